@@ -36,7 +36,7 @@ Diff(P, rec, hh, res, notes, full) ==
   LET seen == Host(P)!Seen(hh)
       badv == {v \in DOMAIN rec.seen.vars : v \in DOMAIN seen.vars /\ seen.vars[v] # rec.seen.vars[v]} IN
   IF res # rec.res THEN "result"
-  ELSE IF ~Host(P)!NotesOk(NotesOf(rec), notes) THEN "notifications"
+  ELSE IF "checked" \notin DOMAIN notes /\ ~Host(P)!NotesOk(NotesOf(rec), notes) THEN "notifications"
   ELSE IF ~full THEN ""
   ELSE IF seen.text # rec.seen.text THEN "text"
   ELSE IF seen.tags # rec.seen.tags THEN "tags"
@@ -71,6 +71,9 @@ DoneN(P, rec, hh, res, notes, full) ==
   IF d # "" THEN Fail("Host." \o d, [exp |-> Expected(P, hh, res), notes |-> notes])
   ELSE /\ h' = hh /\ oi' = oi + 1 /\ ph' = "op" /\ e' = <<>> /\ ev' = <<>> /\ UNCHANGED <<ci, steps, nbad>>
 Done(P, rec, hh, res) == DoneN(P, rec, hh, res, Host(P)!NoNotes, TRUE)
+\* (the notifications of this call have been checked already)
+Checked == [must |-> <<>>, may |-> <<>>, checked |-> TRUE]
+DoneQ(P, rec, hh, res) == DoneN(P, rec, hh, res, Checked, TRUE)
 
 \* calls that are refused while a time-limited continue is unfinished
 Guarded == {"choose_path", "switch_flow", "reset", "observe", "remove_observer", "eval_fn", "choose"}
@@ -99,7 +102,7 @@ Play ==
                     ELSE IF op.op = "eval_fn"
                     THEN LET a == Host(P)!EvalBegin(h, op.name, op.args) IN
                          IF a.res = "err" THEN Done(P, op, h, "err")
-                         ELSE /\ h' = a.h /\ ev' = [saved |-> a.saved, acc |-> <<>>] /\ ph' = "evalcont"
+                         ELSE /\ h' = a.h /\ ev' = [saved |-> a.saved, acc |-> <<>>, notes |-> Host(P)!NoNotes] /\ ph' = "evalcont"
                               /\ UNCHANGED <<ci, oi, e, steps, nbad>>
                     ELSE IF op.op = "reset"
                     THEN LET a == Answer(P, op) IN DoneN(P, op, a.h, a.res, Host(P)!NotesAfterReset(h), TRUE)
@@ -113,12 +116,15 @@ Play ==
                         val == h.m.ret IN
                     IF val # op.val THEN Fail("Host.eval:value", [val |-> val, text |-> ev.acc])
                     ELSE IF ev.acc # op.ftext THEN Fail("Host.eval:text", [val |-> val, text |-> ev.acc])
-                    ELSE Done(P, op, hh, "ok")
+                    ELSE IF ~Host(P)!NotesWithin(NotesOf(op), ev.notes) THEN Fail("Host.eval:notifications", ev.notes)
+                    ELSE DoneQ(P, op, hh, "ok")
           [] ph = "evalloop" ->
                LET r == Look(P)!SingleStep(e) IN
                IF Look(P)!LoopOver(r)
                THEN LET e1 == Look(P)!EndCont([m |-> r.m, snap |-> r.snap, log |-> r.log]) IN
-                    /\ h' = [h EXCEPT !.m = e1.m] /\ ev' = [ev EXCEPT !.acc = ev.acc \o Out!CurrentText(e1.m.out)]
+                    /\ h' = [h EXCEPT !.m = e1.m]
+                    /\ ev' = [ev EXCEPT !.acc = ev.acc \o Out!CurrentText(e1.m.out),
+                                        !.notes = Host(P)!NotesSum(ev.notes, Host(P)!NotesAfterCont(h, e1.m))]
                     /\ ph' = "evalcont" /\ e' = <<>> /\ UNCHANGED <<ci, oi, steps, nbad>>
                ELSE /\ e' = [m |-> r.m, snap |-> r.snap, log |-> r.log] /\ steps' = steps + 1 /\ UNCHANGED <<ci, h, oi, ph, ev, nbad>>
           [] ph = "loop" ->
